@@ -325,7 +325,7 @@ def run(ctx, replay=None):
         flush()
     rejs = ctx.validate("TraceBitmapStr", tf_ok, cfg=tcfg, max_rej=6) if os.path.getsize(tf_ok) else []
     if os.path.getsize(tf_bad):
-        rejs += ctx.validate("TraceBitmapStr", tf_bad, cfg=tcfg, max_rej=100000)
+        rejs += ctx.validate("TraceBitmapStr", tf_bad, cfg=tcfg, max_rej=40)          # per shard: a library that crashes thousands of times is judged on the first few hundred
     # every rejection is replayed in a fresh process; listed known findings first (cheaply recognised, a few are replayed so
     # that they are reported), then at most a dozen of the others
     kf = vlib.load_known_findings(ctx.prop)
